@@ -57,6 +57,7 @@ const (
 	taintUninitialized = "node.cloudprovider.kubernetes.io/uninitialized"
 
 	closingRounds = 12
+	noAdvance     = 1 << 20
 )
 
 func isCapacityErr(s string) bool {
@@ -65,9 +66,9 @@ func isCapacityErr(s string) bool {
 
 func cases(tier string) int {
 	if tier == "thorough" {
-		return 400
+		return 1200
 	}
-	return 40
+	return 160
 }
 
 // ---- scenario ----
@@ -98,6 +99,7 @@ type claimPlan struct {
 	PErr     string // none generic1 generic2 createerr1 ice-sticky ice-once ncnr-sticky ncnr-once
 	Reg      world.KubeletOpts
 	ExtraEph []string
+	AtOnce   bool // the node appears Ready, untainted (except unregistered) and with its resources reported
 }
 
 type step struct {
@@ -111,6 +113,9 @@ type step struct {
 func (s step) String() string {
 	switch s.Op {
 	case "R":
+		if s.Stale == noAdvance {
+			return fmt.Sprintf("R%d~lag", s.C)
+		}
 		return fmt.Sprintf("R%d~%d", s.C, s.Stale)
 	case "K":
 		return fmt.Sprintf("K%d:%s", s.C, s.Act)
@@ -271,11 +276,15 @@ func genPlans(rng *rand.Rand, claims []*claimState) {
 	perrs := []string{"none", "none", "none", "none", "none", "generic1", "generic2", "createerr1", "ice-sticky", "ice-sticky", "ice-once", "ncnr-sticky", "ncnr-once"}
 	for _, c := range claims {
 		p := claimPlan{PErr: perrs[rng.Intn(len(perrs))]}
-		p.Reg = world.KubeletOpts{Ready: rng.Intn(5) == 0, NotReadyTaints: rng.Intn(10) < 7, ZeroExtended: rng.Intn(10) < 6, NoUnregistered: rng.Intn(7) == 0}
+		p.Reg = world.KubeletOpts{Ready: rng.Intn(5) == 0, NotReadyTaints: rng.Intn(10) < 7, ZeroExtended: rng.Intn(10) < 7, NoUnregistered: rng.Intn(6) == 0}
 		for _, t := range []string{"notready-noexec", "unreachable", "uninit"} {
 			if rng.Intn(4) == 0 {
 				p.ExtraEph = append(p.ExtraEph, t)
 			}
+		}
+		if rng.Intn(5) == 0 {
+			p.AtOnce = true
+			p.Reg.Ready, p.Reg.NotReadyTaints, p.Reg.ZeroExtended, p.ExtraEph = true, false, false, nil
 		}
 		c.plan = p
 	}
@@ -289,7 +298,10 @@ func genScript(rng *rand.Rand, n int, probe bool) []step {
 	}
 	recon := func(c int) step {
 		st := step{Op: "R", C: c}
-		if rng.Intn(100) < 35 {
+		switch x := rng.Intn(100); {
+		case probe && x < 55, x < 8:
+			st.Stale = noAdvance // the informer cache has not moved since the last reconcile of this claim
+		case x < 40:
 			st.Stale = 1 + rng.Intn(maxStale)
 		}
 		return st
@@ -316,7 +328,7 @@ func genScript(rng *rand.Rand, n int, probe bool) []step {
 		}
 		for _, a := range acts {
 			l = append(l, step{Op: "K", C: c, Act: a})
-			add(rng.Intn(3))
+			add([]int{0, 1, 1, 2}[rng.Intn(4)])
 		}
 		add(1 + rng.Intn(2))
 		lanes[c] = l
@@ -454,10 +466,14 @@ func (x *exec) onWrite(ev *world.Event) {
 			if x.curStale {
 				// produced by a status merge patch computed from a lagging snapshot; the statement's clauses speak about
 				// becoming True, so this is reported as a diagnostic (see final report), not as a refutation.
-				x.r.Inc("diag_condition_left_true_by_stale_patch:" + t)
+				mode := "in-quantifier"
+				if x.sc.Probe {
+					mode = "probe"
+				}
+				x.r.Inc("diag_condition_left_true_by_stale_patch:" + t + ":" + mode)
 				x.sig["regress-stale:"+t] = true
-				if x.r.WantSample() && x.sc.Probe {
-					x.r.Sample(map[string]any{"kind": "diagnostic: condition left True through a status patch computed from a lagging snapshot", "scenario": x.desc, "witness": w, "trace": append([]string(nil), x.trace...)})
+				if _, have := x.r.Extra["diag_regress_witness"]; !have {
+					x.r.Extra["diag_regress_witness"] = map[string]any{"kind": "diagnostic (not a verdict): condition left True through a status patch computed from a lagging snapshot", "mode": mode, "step": x.curStep, "scenario": x.desc, "witness": w, "trace": append([]string(nil), x.trace...)}
 				}
 			} else {
 				x.violate("condition-left-true:"+t, fmt.Sprintf("NodeClaim %s: condition %s went from True to %q in a reconcile of the current stored object", cs.name, t, condStatus(after, t)), w)
@@ -686,7 +702,11 @@ func (x *exec) kubelet(cs *claimState, act string) int {
 					n.Spec.Taints = append(n.Spec.Taints, corev1.Taint{Key: taintUninitialized, Value: "true", Effect: corev1.TaintEffectNoSchedule})
 				}
 			}
-			if len(cs.plan.ExtraEph) > 0 {
+			if cs.plan.AtOnce {
+				st := x.startupTaintsOf(cs)
+				dropTaints(n, func(t corev1.Taint) bool { return hasTaint(st, t.Key, t.Effect) })
+			}
+			if len(cs.plan.ExtraEph) > 0 || cs.plan.AtOnce {
 				e.Apply(n)
 			}
 			k++
@@ -838,6 +858,7 @@ func (x *exec) reconcile(cs *claimState, stale int) {
 	// M4
 	now := x.stored(cs.name)
 	deleted := now == nil || now.DeletionTimestamp != nil
+	wasDeleted := storedNow == nil || storedNow.DeletionTimestamp != nil
 	injectedDelete := crashed
 	for _, ev := range e.API.LogSince(logN) {
 		if ev.Injected && ev.Kind == "NodeClaim" && ev.Verb == "delete" {
@@ -848,6 +869,8 @@ func (x *exec) reconcile(cs *claimState, stale int) {
 		x.r.Count("m4_capacity_errors", capErr)
 		x.sig["capacity-error"] = true
 		switch {
+		case wasDeleted:
+			x.r.Inc("m4_capacity_error_on_already_deleting_claim")
 		case deleted:
 			x.r.Inc("m4_deleted_in_same_reconcile")
 			cs.capDeleted, cs.capPending = true, false
@@ -942,7 +965,7 @@ func execute(r *mon.Report, sc scen, f *faultSpec) *exec {
 	script := genScript(rs, len(x.claims), sc.Probe)
 	var planDesc []map[string]any
 	for _, c := range x.claims {
-		planDesc = append(planDesc, map[string]any{"claim": c.name, "providerErr": c.plan.PErr, "register": c.plan.Reg, "extraEphemeralTaints": c.plan.ExtraEph, "startupTaints": c.wantStartup, "extendedResource": c.wantGPU})
+		planDesc = append(planDesc, map[string]any{"claim": c.name, "providerErr": c.plan.PErr, "register": c.plan.Reg, "extraEphemeralTaints": c.plan.ExtraEph, "nodeAppearsCompleteAtOnce": c.plan.AtOnce, "startupTaints": c.wantStartup, "extendedResource": c.wantGPU})
 	}
 	var ss []string
 	for _, st := range script {
@@ -1133,10 +1156,18 @@ func (x *exec) finish(wf *world.Fault) {
 	}
 	r.Sig("fault=%s|%s", tgt, strings.Join(common.SortedKeys(x.sig), ","))
 	r.DistinctAdd("fault_targets", tgt)
-	if x.fault != nil && wf.Fired && r.WantSample() && (x.sig["bridge:status-not-persisted"] || x.sig["capacity-error-delete-faulted"]) {
-		r.Sample(map[string]any{"scenario": x.desc, "trace": x.trace, "events": x.eventTail(30)})
+	if x.fault != nil && wf.Fired && r.WantSample() {
+		for _, k := range []string{"bridge:status-not-persisted", "capacity-error-delete-faulted", "recreate-after-restart"} {
+			if x.sig[k] && !sampled[k] {
+				sampled[k] = true
+				r.Sample(map[string]any{"why": k, "scenario": x.desc, "trace": x.trace, "events": x.eventTail(30)})
+				break
+			}
+		}
 	}
 }
+
+var sampled = map[string]bool{}
 
 func run(r *mon.Report, tier string, idx int, rng *rand.Rand) {
 	sc := scen{Idx: idx, WorldSeed: rng.Int63(), ScriptSeed: rng.Int63(), Policy: []string{"cheapest", "dearest", "random", "largest"}[rng.Intn(4)]}
@@ -1179,7 +1210,7 @@ func run(r *mon.Report, tier string, idx int, rng *rand.Rand) {
 func init() {
 	reg.Register(&reg.Prop{
 		ID: "C14", Level: "fault_enumeration",
-		Rule: "each case = generated scenario: world (catalog incl. an extended-resource type, 1-2 NodePools with taints / 0-2 startup taints, 0-1 daemonset) + 1-3 pending pods (half request verif.io/gpu, host-port conflicts force several claims) -> NodeClaims through the real Provisioner.Schedule/Create; per claim a provider error plan {none, generic x1/x2, CreateError, ICE sticky/once, NodeClassNotReady sticky/once} and a kubelet plan (register with/without unregistered taint, not-ready/unreachable/uninitialized taints, zeroed extended resources, Ready at once or later); PRNG-interleaved script of lifecycle reconciles (35% on a monotonically stale snapshot up to 3 versions old), kubelet steps {register, ready, remove startup taints, remove ephemeral taints, report extended resources} in every order, clock steps; run once fault-free (K calls enumerated), then once per (error kind, call k) and once per crash point k (restart), each followed by <=12 fault-free closing rounds. One evaluation = one run. Non-trivial = a monitor antecedent fired; distinct by (fault kind x faulted call x antecedents/features seen).",
+		Rule: "each case = generated scenario: world (catalog incl. an extended-resource type, 1-2 NodePools with taints / 0-2 startup taints, 0-1 daemonset) + 1-3 pending pods (half request verif.io/gpu, host-port conflicts force several claims) -> NodeClaims through the real Provisioner.Schedule/Create; per claim a provider error plan {none, generic x1/x2, CreateError, ICE sticky/once, NodeClassNotReady sticky/once} and a kubelet plan (register with/without unregistered taint, not-ready/unreachable/uninitialized taints, zeroed extended resources, Ready at once or later); PRNG-interleaved script of lifecycle reconciles (32% on a monotonically stale snapshot up to 3 stored versions old, 8% on a cache that did not advance at all since the claim's previous reconcile), kubelet steps {register, ready, remove startup taints, remove ephemeral taints, report extended resources} in every order, clock steps; run once fault-free (K calls enumerated), then once per (error kind, call k) and once per crash point k (restart), each followed by <=12 fault-free closing rounds. One evaluation = one run. Non-trivial = a monitor antecedent fired; distinct by (fault kind x faulted call x antecedents/features seen).",
 		Cases: cases, Run: run,
 		MinObserved: map[string]int{
 			"provider_create_success":                                        50,
